@@ -434,7 +434,19 @@ class Executor:
         return self._spec_funcs
 
     # ------------------------------------------------------------------ entry state
-    def make_param(self, st, name, ty):
+    def make_param(self, st, name, ty, zname=None):
+        if zname is None and name in ("val", "fin", "nan", "pinf", "ninf", "F"):
+            # the solver-level symbol must not clash with the float model's constructors / accessors
+            env_name = name
+            tmp = State()
+            self.make_param(tmp, name + "_", ty)
+            st.pc.extend(tmp.pc)
+            for cell, a in tmp.heap.items():
+                a.roots = frozenset({env_name}) if a.roots else a.roots
+                st.heap["param:" + env_name] = a
+            v = tmp.env[name + "_"]
+            st.env[env_name] = VRef("param:" + env_name) if isinstance(v, VRef) else v
+            return
         if ty == "int":
             st.env[name] = VInt(z3.Int(name))
         elif ty == "float":
